@@ -100,6 +100,8 @@ pub enum Ev {
     /// caller b (a clone of handle A: shared metadata) issues its request while caller a's UNPREPARED answer
     /// (gate 0) or re-PREPARE answer (gate 1) is parked; then both parked answers are released, a's first
     /// (first 0) or b's first (first 1). kind: 0 execute, 1 batch.
+    /// gate 2 (statement cached): caller a's ROWS answer is parked, the node's schema is altered, caller b's request is
+    /// issued and its answer parked too; then both are released in either order (a late answer meets newer metadata).
     Overlap { node: u8, gate: u8, first: u8, kind: u8 },
 }
 impl Ev {
@@ -111,7 +113,7 @@ impl Ev {
             Ev::Evict { node, scope } => format!("evict{}@{node}", ["", "-sel", "-upd"][scope as usize]),
             Ev::Alter { node } => format!("alter@{node}"),
             Ev::Poison { node } => format!("poison@{node}"),
-            Ev::Overlap { node, gate, first, kind } => format!("overlap:{}:{}:{}@{node}", ["exec", "batch"][kind as usize], ["unprep", "prep"][gate as usize], ["a1st", "b1st"][first as usize]),
+            Ev::Overlap { node, gate, first, kind } => format!("overlap:{}:{}:{}@{node}", ["exec", "batch"][kind as usize], ["unprep", "prep", "rows+alter"][gate as usize], ["a1st", "b1st"][first as usize]),
         }
     }
     pub fn parse(s: &str) -> Option<Ev> {
@@ -135,7 +137,7 @@ impl Ev {
                     ["overlap", k, g, f] => Ev::Overlap {
                         node,
                         kind: ["exec", "batch"].iter().position(|x| x == k)? as u8,
-                        gate: ["unprep", "prep"].iter().position(|x| x == g)? as u8,
+                        gate: ["unprep", "prep", "rows+alter"].iter().position(|x| x == g)? as u8,
                         first: ["a1st", "b1st"].iter().position(|x| x == f)? as u8,
                     },
                     _ => return None,
@@ -351,6 +353,14 @@ impl Rec {
         format!("n{} c{} {req} -> {resp}", self.node, self.conn)
     }
 }
+/// At most 12 frames of a trace (a looping driver produces thousands).
+pub fn show_recs(recs: &[Rec]) -> Vec<String> {
+    let mut v: Vec<String> = recs.iter().take(12).map(|r| r.describe()).collect();
+    if recs.len() > 12 {
+        v.push(format!("... {} more frames", recs.len() - 12));
+    }
+    v
+}
 pub fn describe_mid(m: &[u8]) -> String {
     if m.is_empty() {
         return "[]".into();
@@ -555,6 +565,11 @@ pub struct World {
     /// human-readable wire trace of everything so far (for --replay)
     pub story: Vec<String>,
     pub verbose: bool,
+    /// events applied so far (the history of this world)
+    pub applied: Vec<Ev>,
+    /// deviations from the statement that do not stop the exploration (key, text); the reference then follows the
+    /// driver so that the rest of the space stays reachable. Drained by the explorer into violations.
+    pub findings: Vec<(String, String)>,
 }
 
 /// One multi-threaded runtime for all worlds of the process (a world = one mock cluster + one Session; creating
@@ -571,8 +586,19 @@ impl Drop for World {
     fn drop(&mut self) {
         if let Some(rt) = self.rt.take() {
             let cluster = self.cluster.clone();
-            rt.block_on(async move { cluster.shutdown().await });
+            // Close every listener BEFORE the connections are reset: otherwise the driver's control connection, reset
+            // on node 0, fails over to a node that still listens; that late connection can miss shutdown()'s snapshot
+            // and is then closed by the CLIENT (TIME_WAIT; ~30k of them exhaust the ephemeral ports the driver binds).
+            rt.block_on(async move {
+                for i in 0..cluster.node_count() {
+                    cluster.stop_listening(i).await;
+                }
+                cluster.shutdown().await
+            });
             drop(self.session.take());
+            if std::env::var_os("C14_DUMP_LOG").is_some() {
+                println!("{}", self.cluster.dump_log());
+            }
         }
     }
 }
@@ -634,6 +660,8 @@ impl World {
             branches: Vec::new(),
             story: Vec::new(),
             verbose: false,
+            applied: Vec::new(),
+            findings: Vec::new(),
         };
         Ok(w)
     }
@@ -697,6 +725,11 @@ impl World {
                     for first in 0..2 {
                         v.push(Ev::Overlap { node, gate, first, kind: 0 });
                     }
+                }
+            }
+            if self.cfg.alpha >= 1 && n.cache[S][0] && n.version < max_version {
+                for first in 0..2 {
+                    v.push(Ev::Overlap { node, gate: 2, first, kind: 0 });
                 }
             }
             if self.cfg.alpha >= 2 && !n.cache[L][0] {
@@ -792,6 +825,7 @@ impl World {
     /// Apply one event; Err = the oracle's complaint.
     pub fn apply(&mut self, ev: Ev) -> Result<(), Viol> {
         self.branches.clear();
+        self.applied.push(ev);
         let from = self.trace_len();
         self.story.push(format!("== {}", ev.to_text()));
         let story_at = self.story.len();
@@ -817,11 +851,12 @@ impl World {
             Ev::Exec { h, node } => self.sequential(Call::Exec, h as usize, node as usize, 0),
             Ev::Paged { h, node, mid } => self.sequential(Call::Paged, h as usize, node as usize, mid),
             Ev::Batch { node } => self.sequential(Call::Batch, 0, node as usize, 0),
+            Ev::Overlap { node, gate: 2, first, .. } => self.overlap_alter(node as usize, first),
             Ev::Overlap { node, gate, first, kind } => self.overlap(node as usize, gate, first, kind),
         };
         let recs = self.trace_from(from);
-        for (k, r) in recs.iter().enumerate() {
-            self.story.insert(story_at + k, format!("   {}", r.describe()));
+        for (k, r) in show_recs(&recs).into_iter().enumerate() {
+            self.story.insert(story_at + k, format!("   {r}"));
         }
         r?;
         // global checks after every event
@@ -953,7 +988,7 @@ impl World {
         }
         match &outcome {
             Outcome::Panic(p) => return viol("caller:panic", format!("the call panicked: {p}")),
-            Outcome::Hang => return viol("caller:hang", format!("the call did not complete within {CALL_DEADLINE:?}; frames: {:?}", recs.iter().map(|r| r.describe()).collect::<Vec<_>>())),
+            Outcome::Hang => return viol("caller:hang", format!("the call did not complete within {CALL_DEADLINE:?}; frames: {:?}", show_recs(&recs[..]))),
             _ => {}
         }
         if let Some(r) = recs.iter().find(|r| r.node != node) {
@@ -973,7 +1008,7 @@ impl World {
         let mut all_required = true;
         let mut poisoned_end = false;
         let mut last_version = 0u8;
-        let all = || recs.iter().map(|r| r.describe()).collect::<Vec<_>>();
+        let all = || show_recs(&recs[..]);
         'pages: for p in 0..pages {
             let Some(first) = recs.get(i) else {
                 if !all_required && matches!(outcome, Outcome::Err(_)) {
@@ -1078,7 +1113,7 @@ impl World {
     }
 
     fn check_batch_trace(&mut self, recs: &[Rec], key: i32, outcome: &Outcome) -> Result<(), Viol> {
-        let all = || recs.iter().map(|r| r.describe()).collect::<Vec<_>>();
+        let all = || show_recs(&recs[..]);
         let Some(first) = recs.first() else {
             return viol("trace:missing-request", format!("no BATCH reached the node; caller saw {outcome:?}"));
         };
@@ -1222,7 +1257,7 @@ impl World {
         self.cluster.unhold_all();
         self.cluster.release_all();
         let recs = self.trace_from(from);
-        let all = || recs.iter().map(|r| r.describe()).collect::<Vec<_>>();
+        let all = || show_recs(&recs[..]);
         let (oa, ob) = match res {
             Ok(x) => x,
             Err(e) => return viol("overlap:stalled", format!("the overlap schedule could not be carried out: {e}; frames: {:?}", all())),
@@ -1316,9 +1351,13 @@ impl World {
             if poisoned && mine.len() > 1 && mine.iter().any(|r| matches!(r.resp, Resp::Unprepared { .. })) {
                 return viol("poison:request-after-id-change", format!("caller {who}: re-preparation yields a different id, yet the request was sent again; frames: {:?}", all()));
             }
-            let unprepared_seen = mine.iter().filter(|r| matches!(r.resp, Resp::Unprepared { .. })).count();
-            if unprepared_seen > 1 {
-                return viol("unprepared:twice", format!("caller {who} was answered UNPREPARED twice; frames: {:?}", all()));
+            // nothing is evicted during an overlap, so no caller can be told UNPREPARED twice about the SAME statement
+            // (a batch may be told once per statement)
+            for stmt in 0..3 {
+                let unprepared_seen = mine.iter().filter(|r| matches!(r.resp, Resp::Unprepared { stmt: s } if s == stmt)).count();
+                if unprepared_seen > 1 {
+                    return viol("unprepared:twice", format!("caller {who} was answered UNPREPARED twice for the same statement; frames: {:?}", all()));
+                }
             }
         }
         self.branches.push(match (gate, first) {
@@ -1344,6 +1383,127 @@ impl World {
             }
         }
         Ok(())
+    }
+
+    /// gate 2: a's ROWS answer parked -> alter(node) -> b's request, answer parked -> release in either order.
+    fn overlap_alter(&mut self, node: usize, first: u8) -> Result<(), Viol> {
+        let from = self.trace_len();
+        let before = self.refh[0].clone();
+        let fa = self.call_future(Call::Exec, 0, node, 1);
+        let fb = self.call_future(Call::Exec, 0, node, 2);
+        let cluster = self.cluster.clone();
+        let model = self.model.clone();
+        let rt = self.rt.as_ref().unwrap();
+        let res: Result<(Outcome, Outcome), String> = rt.block_on(async move {
+            let rule = cluster.hold(move |a| a.node == node && matches!(a.request().map(|f| &f.request), Some(Request::Execute { id, .. }) if which_stmt(id).is_some()));
+            let mut ha = tokio::spawn(fa);
+            let parked_a = tokio::select! {
+                r = &mut ha => return Err(format!("caller a finished although its answer should be parked: {:?}", r.ok())),
+                p = cluster.wait_held("caller a's ROWS answer", |_| true) => p?,
+            };
+            model.lock().unwrap().nodes[node].version += 1;
+            let mut hb = tokio::spawn(fb);
+            let parked_b = tokio::select! {
+                r = &mut hb => return Err(format!("caller b finished although its answer should be parked: {:?}", r.ok())),
+                p = cluster.wait_held("caller b's ROWS answer", |a| a.id != parked_a.id) => p?,
+            };
+            cluster.unhold(rule);
+            let (oa, ob);
+            if first == 0 {
+                cluster.release(parked_a.id);
+                oa = ha.await.map_err(|e| e.to_string())?;
+                cluster.release(parked_b.id);
+                ob = hb.await.map_err(|e| e.to_string())?;
+            } else {
+                cluster.release(parked_b.id);
+                ob = hb.await.map_err(|e| e.to_string())?;
+                cluster.release(parked_a.id);
+                oa = ha.await.map_err(|e| e.to_string())?;
+            }
+            Ok((oa, ob))
+        });
+        self.cluster.unhold_all();
+        self.cluster.release_all();
+        let recs = self.trace_from(from);
+        let all = || show_recs(&recs[..]);
+        let (oa, ob) = match res {
+            Ok(x) => x,
+            Err(e) => return viol("overlap:stalled", format!("the overlap schedule could not be carried out: {e}; frames: {:?}", all())),
+        };
+        if self.verbose {
+            self.story.push(format!("   caller a: {oa:?}"));
+            self.story.push(format!("   caller b: {ob:?}"));
+        }
+        for (who, o) in [("a", &oa), ("b", &ob)] {
+            match o {
+                Outcome::Panic(p) => return viol("caller:panic", format!("caller {who} panicked: {p}")),
+                Outcome::Hang => return viol("caller:hang", format!("caller {who} did not complete within {CALL_DEADLINE:?}; frames: {:?}", all())),
+                _ => {}
+            }
+        }
+        if let Some(r) = recs.iter().find(|r| r.node != node) {
+            return viol("route:wrong-node", format!("request targeted at node {node} produced a frame on another node: {}", r.describe()));
+        }
+        // one EXECUTE per caller, both composed before anything new was delivered
+        let mut answers: Vec<(u8, bool, bool)> = Vec::new(); // (version, sent_metadata, changed) of a, b
+        for (who, key, outcome) in [("a", 1, &oa), ("b", 2, &ob)] {
+            let mine: Vec<&Rec> = recs.iter().filter(|r| r.key() == Some(key)).collect();
+            if mine.len() != 1 {
+                return viol("trace:extra-request", format!("caller {who}: expected exactly one EXECUTE, frames: {:?}", all()));
+            }
+            self.check_presented(mine[0], &[before.usable], &[before.last_id.clone()])?;
+            let Resp::Rows { version, sent_metadata, changed, .. } = mine[0].resp else {
+                return viol("trace:unexpected-request", format!("caller {who}: expected a ROWS answer, got {}", mine[0].describe()));
+            };
+            let want = vec![expected_select_row(version, key, 0), expected_select_row(version, key, 1)];
+            if self.decode_required(&before, &mine[0].resp) {
+                match outcome {
+                    Outcome::Rows { rows, .. } if *rows == want => {}
+                    Outcome::Rows { rows, .. } => return viol("rows:decoded-differently", format!("caller {who} decoded {rows:?}, the node encoded {want:?}; frames: {:?}", all())),
+                    other => return viol("caller:error-instead-of-result", format!("caller {who} saw {other:?} where {want:?} was due; frames: {:?}", all())),
+                }
+            } else {
+                self.branches.push("silent:stale-cached-metadata");
+            }
+            answers.push((version, sent_metadata, changed));
+        }
+        // announcements in DELIVERY order; an answer without metadata announces nothing
+        let order: [usize; 2] = if first == 0 { [0, 1] } else { [1, 0] };
+        let mut refh = before.clone();
+        for i in order {
+            let (version, _, changed) = answers[i];
+            if changed {
+                refh.usable = Some(version);
+                refh.last_id = Some(meta_id(S, version));
+            }
+        }
+        self.branches.push(if first == 0 { "overlap:rows+alter:a-first" } else { "overlap:rows+alter:b-first" });
+        // The late answer of caller a (sent before the schema change, delivered after b's announcement) carries NO
+        // metadata; if the driver nevertheless puts a's request-time copy back, the next EXECUTE presents an older id
+        // than the one most recently announced. Recorded as a finding of its own; the reference follows the driver.
+        if self.cfg.ext && first == 1 && !answers[0].1 && answers[1].2 {
+            let shown = self.getter_cols(0);
+            if shown != col_names(answers[1].0) && shown == col_names(answers[0].0) {
+                self.findings.push((
+                    "announce:late-answer-without-metadata-reverts-newer-id".to_string(),
+                    format!(
+                        "caller b's answer announced columns {:?} (new id); caller a's older answer, delivered afterwards, carried NO metadata, yet the statement now shows {:?} again, so the next EXECUTE presents the superseded id; frames: {:?}",
+                        col_names(answers[1].0),
+                        shown,
+                        all()
+                    ),
+                ));
+                self.branches.push("finding:late-answer-reverts-id");
+                refh.usable = Some(answers[0].0);
+                refh.last_id = Some(meta_id(S, answers[0].0));
+            }
+        }
+        self.refh[0] = refh;
+        Ok(())
+    }
+
+    pub fn dump_mock_log(&self) -> String {
+        self.cluster.dump_log()
     }
 
     /// Last caller-visible facts for the replay printout.
